@@ -315,7 +315,8 @@ def consumeOptX (bind : Bind) (strs : List (String × Target)) (tg : Target) (os
         match last with
         | .help => .error .helpExit
         | .opt o =>
-          match takeAction bind o toks st1 with
+          -- `_get_values` removes a `--` here too: `--opt=--` hands NO string to the action
+          match takeAction bind o (toks.erase "--") st1 with
           | .error x => .error x
           | .ok st2 => .ok (st2, run')
 
@@ -513,7 +514,12 @@ def _root_.Cnfgen.Gen.CliSpec.inline (s : CliSpec) : Bool :=
 /-- every sub-command the extended interpreter handles -/
 def _root_.Cnfgen.Gen.CliSpec.supportedX (s : CliSpec) : Bool := s.supported || s.inline
 
-/-- parse (any tokens), then take the path of the helper's method -/
+/-- some option holds the empty list: only CPython 3.12.1's removal of a lone `--` produces that -/
+def hasQuirk (ns : Ns) : Bool := ns.any (fun p => p.2 == .ints [] || (match p.2 with | .graph _ [] => true | _ => false))
+
+/-- parse (any tokens), then take the path of the helper's method.  A guard that cannot be evaluated because an
+option holds the empty list instead of a number: the helpers' guards start with an ordering comparison of that
+option with an integer, which raises TypeError (`[] > 2`). -/
 def dispatchTemplateX (ord : List String → Nat) (s : CliSpec) (argv : List String) :
     Except PErr (CallTemplate × Ns) :=
   match parseX s argv with
@@ -521,7 +527,7 @@ def dispatchTemplateX (ord : List String → Nat) (s : CliSpec) (argv : List Str
   | .ok b =>
     let ns := namespaceOf s b
     match selectTemplate ns (s.templates.map (fixTemplate ord ns)) with
-    | .error e => .error (liftErr e)
+    | .error e => if hasQuirk ns then .error (.crash "TypeError") else .error (liftErr e)
     | .ok t => .ok (t, ns)
 
 def dispatchSpecX (tool : String) (ord : List String → Nat) (s : CliSpec) (argv : List String) :
